@@ -148,3 +148,119 @@ theorem tryList_drop (k : Nat) (hk : k ≤ 11) (length : Int) (s : Sub) (inp : B
   exact step k (Nat.le_refl k)
 
 end Gts.GenBank
+
+namespace Gts.GenBank
+open Gts.Pars
+
+/-- the field's own sub-parser (index `k` of `tryAllParsers`) takes it -/
+theorem tryAll_at (k : Nat) (hk : k < 11) (length : Int) (s s' : Sub) (inp rest : Bytes) (stk' : List Bytes)
+    (hnot : notNames k inp = true) (p : Sub → P (Sub × Bool))
+    (hp : (fieldParsers length 12)[k]? = some p)
+    (hrun : p s ⟨inp, [inp]⟩ = (.ok (s', true), ⟨rest, stk'⟩)) (hstk : stk'.drop 1 = []) :
+    tryAll length 12 s ⟨inp, []⟩ = (.ok (.parsed s'), ⟨rest, []⟩) := by
+  have hlen : k < (fieldParsers length 12).length := by simp [fieldParsers]; omega
+  have hd : (fieldParsers length 12).drop k = p :: (fieldParsers length 12).drop (k + 1) := by
+    rw [List.drop_eq_getElem_cons hlen]
+    congr 1
+    have := List.getElem?_eq_getElem hlen
+    rw [this] at hp; exact Option.some.inj hp
+  simp only [tryAll, P.bind_run]
+  rw [tryList_drop k (by omega) length s inp [] hnot, hd, tryList_hit p _ s s' inp rest [] stk' hrun, hstk]
+  rfl
+
+/-- an extra field: none of the eleven names starts the input -/
+theorem tryAll_extra (length : Int) (f : Fields) (t : List QFeature) (o : OriginV) (r : Registry)
+    (name value rest : Bytes) (hnot : notNames 11 (extraText name value ++ 10 :: rest) = true)
+    (hw : WritableExtra name value = true) (hrest : (sp 12).isPrefixOf rest = false) :
+    tryAll length 12 (f, t, o, r) ⟨extraText name value ++ 10 :: rest, []⟩ =
+      (.ok (.parsed ({ f with extra := f.extra ++ [(name, value)] }, t, o, r)), ⟨rest, []⟩) := by
+  simp only [tryAll, P.bind_run]
+  rw [tryList_drop 11 (by omega) length _ _ [] hnot]
+  have : (fieldParsers length 12).drop 11 = [] := by simp [fieldParsers]
+  rw [this, tryList_nil]
+  have he := extra_roundtrip f name value rest [extraText name value ++ 10 :: rest] hw hrest
+  gsimp [he]
+
+/-- a line that is no field at all (the line feed behind CONTIG): skipped -/
+theorem tryAll_blank (length : Int) (s : Sub) (rest : Bytes) :
+    tryAll length 12 s ⟨10 :: rest, []⟩ = (.ok (.skip s), ⟨10 :: rest, []⟩) := by
+  obtain ⟨f, t, o, r⟩ := s
+  simp only [tryAll, P.bind_run]
+  rw [tryList_drop 11 (by omega) length _ _ [] (by simp [notNames, fieldNames, bs, List.isPrefixOf])]
+  have : (fieldParsers length 12).drop 11 = [] := by simp [fieldParsers]
+  rw [this, tryList_nil]
+  have hw := word_fail isUpper (10 :: rest) [10 :: rest] (by intro c hc; simp at hc; subst hc; decide)
+  gsimp [extraField, hw]
+
+/-! ### the record loop -/
+
+/-- what follows a section: a field name (upper case) or the terminator `//` -/
+def startsField (rest : Bytes) : Bool :=
+  match rest with
+  | c :: _ => isUpper c || c == 47
+  | [] => false
+
+theorem startsField_spec (rest : Bytes) (h : startsField rest = true) :
+    ∃ c r, rest = c :: r ∧ (isUpper c = true ∨ c = 47) := by
+  cases rest with
+  | nil => simp [startsField] at h
+  | cons c r => exact ⟨c, r, rfl, by simpa [startsField] using h⟩
+
+theorem upper_ne_blank (c : UInt8) : isUpper c = true → c ≠ 32 := by
+  revert c; apply byte_cases; decide +kernel
+
+theorem upper_ne_slash (c : UInt8) : isUpper c = true → c ≠ 47 := by
+  revert c; apply byte_cases; decide +kernel
+
+theorem startsField_not_sp (n : Nat) (hn : 0 < n) (rest : Bytes) (h : startsField rest = true) :
+    (sp n).isPrefixOf rest = false := by
+  obtain ⟨c, r, rfl, hc⟩ := startsField_spec rest h
+  apply sp_prefix_cons n c r _ hn
+  rcases hc with hc | rfl
+  · exact upper_ne_blank c hc
+  · decide
+
+theorem startsField_head (rest : Bytes) (h : startsField rest = true) : rest.head? ≠ some 32 := by
+  obtain ⟨c, r, rfl, hc⟩ := startsField_spec rest h
+  rcases hc with hc | rfl
+  · simpa using upper_ne_blank c hc
+  · simp
+
+/-- the terminator does not match a text that starts with an upper-case letter -/
+theorem endMark_upper (c : UInt8) (r : Bytes) (hc : isUpper c = true) :
+    endMark ⟨c :: r, []⟩ = (.error .fail, ⟨c :: r, []⟩) := by
+  have : (bs "//").isPrefixOf (c :: r) = false := by
+    have h47 : c ≠ 47 := upper_ne_slash c hc
+    have : ((47 : UInt8) == c) = false := by simpa using fun h => h47 h.symm
+    simp [bs, List.isPrefixOf, this]
+  gsimp [endMark, lit_fail _ _ _ this]
+
+theorem endMark_lf (r : Bytes) : endMark ⟨10 :: r, []⟩ = (.error .fail, ⟨10 :: r, []⟩) := by
+  have : (bs "//").isPrefixOf (10 :: r) = false := by simp [bs, List.isPrefixOf]
+  gsimp [endMark, lit_fail _ _ _ this]
+
+theorem endMark_ok (rest : Bytes) : endMark ⟨bs "//\n" ++ rest, []⟩ = (.ok (), ⟨rest, []⟩) := by
+  have e : bs "//\n" ++ rest = bs "//" ++ (10 :: rest) := by simp [bs]
+  rw [e]
+  gsimp [endMark, lit_ok, eol_lf]
+
+/-- one pass of the loop over a section whose text starts with an upper-case letter -/
+theorem loop_step (length : Int) (k : Nat) (s s' : Sub) (c : UInt8) (txt rest : Bytes) (hc : isUpper c = true)
+    (h : tryAll length 12 s ⟨c :: txt, []⟩ = (.ok (.parsed s'), ⟨rest, []⟩)) :
+    recordLoop length 12 (k + 1) s ⟨c :: txt, []⟩ = recordLoop length 12 k s' ⟨rest, []⟩ := by
+  simp only [recordLoop, P.bind_run, attempt_run, endMark_upper c txt hc, h]
+
+/-- the end of the record -/
+theorem loop_end (length : Int) (k : Nat) (s : Sub) (rest : Bytes) :
+    recordLoop length 12 (k + 1) s ⟨bs "//\n" ++ rest, []⟩ = (.ok s, ⟨rest, []⟩) := by
+  simp only [recordLoop, P.bind_run, attempt_run, endMark_ok, P.pure_run]
+
+/-- the line feed behind CONTIG: skipped as an empty unknown line (the input goes on) -/
+theorem loop_blank (length : Int) (k : Nat) (s : Sub) (c : UInt8) (rest : Bytes) :
+    recordLoop length 12 (k + 1) s ⟨10 :: c :: rest, []⟩ = recordLoop length 12 k s ⟨c :: rest, []⟩ := by
+  have hline := line_ok [] (c :: rest) [] rfl
+  simp only [List.nil_append] at hline
+  simp only [recordLoop, P.bind_run, attempt_run, endMark_lf, tryAll_blank, hline, getS, P.pure_run,
+    List.isEmpty_cons, Bool.false_eq_true, if_false]
+
+end Gts.GenBank
